@@ -219,7 +219,60 @@ def rule_interface(repo, rep):
         for s in ast.walk(fn):
             if isinstance(s, ast.Assign) and norm(s.targets[0]).endswith("original_inputs"):
                 rep.check("input" in norm(s.value).lower(), "C11-c", f"{TR}:{q}", f"original_inputs taken from the flatbuffer inputs: {norm(s)[:90]}", "")
-    rep.floor("C11-c", 5)
+    # operands are positional: an absent optional input is written as -1, never dropped (bias of a convolution, the axis
+    # operand of a reduction ... are found by index)
+    so = tw.func("TFLiteSerialiser.serialise_operator")
+    osite = f"{TW}:TFLiteSerialiser.serialise_operator"
+    comps = [c for c in ast.walk(so) if isinstance(c, ast.ListComp) and len(c.generators) == 1 and str(norm(c.generators[0].iter)) == "op.inputs"]
+    if len(comps) != 1:
+        raise AnalysisError("serialise_operator: list of input tensor indices not found")
+    g_ = comps[0].generators[0]
+    elt = comps[0].elt
+    ok = not g_.ifs and isinstance(elt, ast.IfExp) and "-1" in (str(norm(elt.orelse)), str(norm(elt.body)))
+    rep.check(ok, "C11-c", osite, "one index per entry of op.inputs: absent operands are written as -1 in place",
+              f"`{str(norm(comps[0]))[:120]}`: an absent optional operand is dropped and the operands behind it move up one position")
+    # flatbuffer vectors are built back to front (Prepend*): every vector writer feeds the builder the reversed sequence
+    nvec = 0
+    for m_, mn in ((repo.mod("tflite_mapping"), "tflite_mapping"), (tw, "tflite_writer")):
+        for q, fn in m_.functions.items():
+            for lp in ast.walk(fn):
+                if not isinstance(lp, ast.For):
+                    continue
+                pre = [c for st in lp.body for c in ast.walk(st) if isinstance(c, ast.Call) and isinstance(c.func, ast.Attribute) and c.func.attr.startswith("Prepend")
+                       and c.args and str(norm(c.args[0])) == str(norm(lp.target))]
+                if not pre:
+                    continue
+                nvec += 1
+                it = lp.iter
+                rev = (isinstance(it, ast.Subscript) and str(norm(it.slice)) == "::-1") or (isinstance(it, ast.Call) and call_name(it) == "reversed")
+                rep.check(rev, "C11-c", f"ethosu/vela/{mn}.py:{q}", f"{pre[0].func.attr} loop runs over the reversed sequence (the builder fills vectors from the end)",
+                          f"iterates `{str(norm(it))}`: the vector is written back to front, so operand / shape / subgraph-interface order is reversed in the output file")
+    if nvec < 7:
+        raise AnalysisError(f"flatbuffer vector writers: only {nvec} Prepend loops found")
+    # the subgraph's output list keeps its order: tensors are replaced in place or removed, never re-appended
+    nout = 0
+    for m in repo.core_modules():
+        for n_ in ast.walk(m.tree):
+            fn = None
+            if isinstance(n_, ast.Call) and isinstance(n_.func, ast.Attribute) and str(norm(n_.func.value)).endswith(".output_tensors") and \
+                    n_.func.attr in ("append", "insert", "extend", "sort", "reverse", "pop", "remove", "clear"):
+                fn = m.enclosing_function(n_)
+                recv = str(norm(n_.func.value)).rsplit(".", 1)[0]
+                nout += 1
+                rep.check(n_.func.attr == "remove" or recv == "npu_subgraph", "C11-c", f"ethosu/vela/{m.name}.py:{m.qualname_of(fn) if fn else '<module>'}",
+                          f"`{str(norm(n_))[:80]}` keeps the order of the model's outputs (removal, or a freshly built NPU subgraph)",
+                          "re-ordering mutation of a subgraph's output list: the written model's output k is no longer the source model's output k")
+            if isinstance(n_, ast.Assign) and len(n_.targets) == 1 and isinstance(n_.targets[0], ast.Attribute) and n_.targets[0].attr == "output_tensors":
+                fn = m.enclosing_function(n_)
+                v = n_.value
+                nout += 1
+                inplace = isinstance(v, ast.ListComp) and len(v.generators) == 1 and not v.generators[0].ifs and str(norm(v.generators[0].iter)) == str(norm(n_.targets[0]))
+                fresh = str(norm(v)) == "[]" or (m.name.endswith("_reader") and str(norm(v)).endswith(".outputs"))
+                rep.check(inplace or fresh, "C11-c", f"ethosu/vela/{m.name}.py:{m.qualname_of(fn) if fn else '<module>'}",
+                          f"`{str(norm(n_))[:90]}`: position-preserving replacement (or the reader's / constructor's initial list)", "the output list is rebuilt in a different order")
+    if nout < 6:
+        raise AnalysisError(f"output_tensors writers: only {nout} found")
+    rep.floor("C11-c", 20)
 
 
 # ------------------------------------------------------------------ d
